@@ -176,6 +176,10 @@ def run(R):
         for f in fam:
             has_default_src = f.cls is not None and (repo.is_subclass(f.cls, 'SpawnBase') or f.cls.name == 'REPLWrapper') \
                 or f.qual.endswith(':repl_run_command_async')
+            if not has_default_src and not S.bad_uses(f):
+                # a plain function that only hands its timeout on to callees that replace -1 themselves
+                c.ok(f, None, 'timeout is only forwarded to callees that replace the -1 sentinel', kind='flow', tag='sentinel-forward')
+                continue
             if not has_default_src:
                 # no instance default reachable from here: every call site must pass an explicit value
                 sites = 0
